@@ -11,9 +11,10 @@ pub static C10_ITER: [AtomicU64; 2] = [AtomicU64::new(0), AtomicU64::new(0)];
 /// set by the harness through /proc/pid/mem: the main loop ends after the current iteration
 #[no_mangle]
 pub static C10_DONE: AtomicU64 = AtomicU64::new(0);
-/// gate of the main loop: iteration i starts when C10_GO > i (the harness adds credits through /proc/pid/mem)
+/// gate of the main loop: iteration i starts when C10_GO > i (one initial credit: `start` reaches the site; the
+/// harness adds one per `continue` through /proc/pid/mem)
 #[no_mangle]
-pub static C10_GO: AtomicU64 = AtomicU64::new(0);
+pub static C10_GO: AtomicU64 = AtomicU64::new(1);
 static WORKER_DONE: AtomicU64 = AtomicU64::new(0);
 
 const SIGINT: i32 = 2;
